@@ -56,6 +56,7 @@ def renSim (s : Sim) : Sim :=
 @[simp] theorem renSim_chans (s : Sim) : (renSim a s).chans = s.chans.map (renChan a) := rfl
 @[simp] theorem renChan_busy (c : ChanRt) : (renChan a c).busy = c.busy := rfl
 @[simp] theorem renMod_sems (m : ModRt) : (renMod a m).sems = m.sems := rfl
+@[simp] theorem renMod_deferq (m : ModRt) : (renMod a m).deferq = m.deferq := rfl
 @[simp] theorem renSim_dropped (s : Sim) : (renSim a s).dropped = s.dropped := rfl
 @[simp] theorem renSim_seeds (s : Sim) : (renSim a s).seeds = s.seeds := rfl
 @[simp] theorem renSim_buf (s : Sim) : (renSim a s).buf = s.buf.map (fun p => (renEv a p.1, p.2)) := rfl
